@@ -114,7 +114,7 @@ def decide(mod, prop, tier, seed, dumps, problems, wall, post=None):
         problems.append('no shard produced a result')
         m = {'evaluations': 0, 'all_digests': set(), 'nontrivial': set(), 'bulk_evaluations': 0, 'bulk_distinct': 0,
              'bulk': {}, 'exhaustive': {}, 'monitors': {}, 'classes': {}, 'mechanism_hits': {}, 'samples': [],
-             'unknown': [], 'unknown_count': 0, 'known': {}, 'known_count': {}, 'extra': {}, 'inconclusive': []}
+             'unknown': [], 'unknown_count': 0, 'known': {}, 'known_count': {}, 'violation_kinds': {}, 'extra': {}, 'inconclusive': []}
     if post:
         for k, v in (post.get('monitors') or {}).items():
             m['monitors'][k] = m['monitors'].get(k, 0) + v
@@ -181,6 +181,7 @@ def decide(mod, prop, tier, seed, dumps, problems, wall, post=None):
         'enumerated_subspaces': dict(m['bulk']),
         'exhaustive_subspaces': dict(m['exhaustive']),
         'known_findings_seen': dict(m['known_count']),
+        'violation_kinds': dict(m.get('violation_kinds', {})),
         'known_finding_witnesses': {k: v[:1] for k, v in m['known'].items()},
         'verdict': verdict,
         'inconclusive_reasons': problems[:10],
